@@ -6,6 +6,8 @@ with that model (Midi/Proofs/Gen*.lean), so a change to the source file that alt
 even where no test input exposes it.
 -/
 import Midi.Proofs.GenPoll
+import Midi.Props.C13
+import Midi.Props.C14
 import Midi.Props.C15
 import Midi.Props.C16
 import Midi.Props.C17
@@ -35,6 +37,40 @@ theorem run_is_channelwise (c : Nat) (hc : c < 16) (now timeout : Nat) (ops : Li
   refine ⟨gscanner (PScanner.new timeout), n, gscanner s, outs, new timeout, ?_, hl, ?_⟩
   · rw [grun_eq, scanner_new, h]; rfl
   · rw [ho]; simp [PScanner.new]
+
+/-- C14 for the translated scanner as a whole: under ANY interleaving of valid feeds on all 16 channels, polls, resets
+    and time steps it never panics and, for every channel, the trace monitor of Spec/Monitor.lean (the property text as
+    a history observer) accepts the sequence of (event of that channel, what the translated call returned) -/
+theorem monitor_accepts (c : Nat) (hc : c < 16) (now timeout : Nat) (ops : List TOp) (hv : ∀ op ∈ ops, op.Valid) :
+    ∃ s0 now' s' outs, PollScan.PollingParameterNumberMessageScanner.new timeout = .ok s0 ∧
+      grun now s0 ops = .ok (outs, (now', s')) ∧
+      ({} : Mon).accepts c timeout ((project c now ops).zip (outputsOn c now ops outs)) = true := by
+  obtain ⟨n, s, outs, h, hacc⟩ := C14.monitor_accepts_scanner c hc now timeout ops hv
+  refine ⟨gscanner (PScanner.new timeout), n, gscanner s, outs, new timeout, ?_, hacc⟩
+  rw [grun_eq, scanner_new, h]; rfl
+
+/-- C13 for the translated scanner as a whole: after ANY interleaving from `new(timeout)`, the translated `poll(c)`
+    returns a message only if a controller-6 message with that value was fed on channel `c` at least `timeout` before
+    the poll; the message is that 7-bit data entry -/
+theorem poll_justified (c : Nat) (hc : c < 16) (now timeout : Nat) (ops : List TOp) (hv : ∀ op ∈ ops, op.Valid) :
+    ∃ s0 n s outs, PollScan.PollingParameterNumberMessageScanner.new timeout = .ok s0 ∧
+      grun now s0 ops = .ok (outs, (n, s)) ∧
+      ∀ s' m, s.poll c n = .ok (some m, s') →
+        ∃ arr f, TOp.feed ⟨176 + c, 6, f⟩ ∈ ops ∧ timeout ≤ n - arr ∧ m.value = f ∧ m.is14Bit = false ∧
+          m.dataType = .dataEntry := by
+  obtain ⟨n, sh, outs, h, hj⟩ := C13.poll_justified_scanner c hc now timeout ops hv
+  refine ⟨gscanner (PScanner.new timeout), n, gscanner sh, outs, new timeout, ?_, ?_⟩
+  · rw [grun_eq, scanner_new, h]; rfl
+  · intro s' m hp
+    rw [poll, scanner_gscanner] at hp
+    cases hq : PScanner.poll n sh c with
+    | error e => rw [hq] at hp; simp [back] at hp
+    | ok r =>
+      rw [hq] at hp
+      simp only [back] at hp
+      injection hp with hp
+      injection hp with h1 h2
+      exact hj r.1 m (by rw [hq]; cases r; simp_all)
 
 /-- C16 for the translated scanner, at any time, from EVERY state -/
 theorem transparent (now : Nat) (s : Scanner) (b : Bytes) (hv : b.Valid) (hn : ¬ C16.contributesPN b) :
